@@ -1,5 +1,5 @@
 SPECIFICATION HSpec
 CONSTANTS
   MaxConns = 3
-  Kinds = {"default", "classic", "public"}
+  Kinds = {"default", "classic", "public", "classic_shared"}
 INVARIANT Isolation
